@@ -382,6 +382,17 @@ fn run_loom(tier: Tier, pr_pairs: &[(Op, Op)], pc_pairs: &[(Op, Op)], ctx: &mut 
             let c = pairs.last().map(|p| p.0).unwrap_or(*a);
             specs.push(mk(model, st, vec![vec![op_json(a)], vec![op_json(b)], vec![op_json(&c), op_json(a)]], tier.pick(Some(3), None)));
         }
+        if tier == Tier::Thorough {
+            // deeper bodies: 2 threads x 3 requests (unbounded), 4 threads x 1-2 requests incl. a clone (preemption bound 3)
+            for (a, b) in pairs.iter().take(3) {
+                let c = pairs.last().map(|p| p.1).unwrap_or(*b);
+                specs.push(mk(model, st, vec![vec![op_json(a), op_json(b), op_json(&c)], vec![op_json(&c), op_json(b), op_json(a)]], None));
+            }
+            if let Some((a, b)) = pairs.first() {
+                let c = pairs.last().map(|p| p.0).unwrap_or(*a);
+                specs.push(mk(model, st, vec![vec![op_json(a)], vec![op_json(b)], vec![op_json(&c), op_json(a)], vec![json!([9, 0, 0]), op_json(b)]], Some(3)));
+            }
+        }
     }
     let spec_path = "/verif/target/c11_loom_spec.json";
     std::fs::write(spec_path, serde_json::to_string_pretty(&specs).unwrap()).unwrap();
